@@ -51,7 +51,14 @@ class Module:
         self.name = name
         self.path = path
         self.source = source
-        self.tree = normalize_module(inline_module(normalize_module(inline_module(ast.parse(source, filename=path), name), comp=comp), name), comp=comp)
+        tree = ast.parse(source, filename=path)
+        from .inline import has_new_helpers, load_known, _KNOWN_CACHE
+        if not _KNOWN_CACHE:
+            _KNOWN_CACHE.append(load_known())
+        if has_new_helpers(tree, name, _KNOWN_CACHE[0]):
+            # helpers unknown to the rules: inline, normalise (which may expose further call sites), inline again
+            tree = inline_module(normalize_module(inline_module(tree, name), comp=comp), name)
+        self.tree = normalize_module(tree, comp=comp)
         self.digest = hashlib.sha256(source.encode()).hexdigest()[:16]
         self.classes = {}
         self.functions = {}
